@@ -98,7 +98,7 @@ def make_converter(behaviour, base):
     with open(os.path.join(bindir, "mode"), "w") as f:
         f.write(behaviour)
     return LibreOfficeConverter(executable_path=exe)
-TARGETS = ("absent", "present", "missing_dirs", "resdir_present")
+TARGETS = ("absent", "present", "missing_dirs", "resdir_present", "present_long")
 NAMES = {"write_rtf": ["out.rtf", "noext"], "write_docx": ["out.docx", "report"], "write_html": ["rep.html", "page.htm", "noext"],
          "write_pdf": ["out.pdf", "a.b.pdf"]}
 PAYLOAD = b"CONVERTED-BYTES-\x00\x01\xff"
@@ -172,9 +172,9 @@ def setup_case(case):
         target = os.path.join(area, "new", "deeper", name)
     else:
         target = os.path.join(area, name)
-    if state in ("present", "resdir_present"):
+    if state in ("present", "resdir_present", "present_long"):
         with open(target, "wb") as f:
-            f.write(b"OLD TARGET CONTENT")
+            f.write(b"OLD TARGET CONTENT" * (20000 if state == "present_long" else 1))      # longer than any new export
     if state == "resdir_present":
         # what an earlier successful write_html to the same target left behind
         stem = Path(name).stem
@@ -241,7 +241,7 @@ def enumerate_cases(tier):
                     continue
                 for name in NAMES[export]:
                     yield {"export": export, "doc": 0, "fault": None, "stub": stub, "target": tgt, "name": name}
-    for tgt in ("absent", "present", "missing_dirs"):
+    for tgt in ("absent", "present", "missing_dirs", "present_long"):
         for di in range(len(DOCS)):
             for name in NAMES["write_rtf"]:
                 yield {"export": "write_rtf", "doc": di, "fault": None, "stub": "ok", "target": tgt, "name": name}
@@ -259,7 +259,7 @@ def _case(draw):
     n = len(call_profile(export, di))
     fault = draw(st.one_of(st.none(), st.integers(1, n), st.integers(1, n)))
     stub = draw(st.sampled_from(STUBS)) if export != "write_rtf" else "ok"
-    tgt = draw(st.sampled_from(TARGETS if export == "write_html" else TARGETS[:3]))
+    tgt = draw(st.sampled_from(TARGETS if export == "write_html" else TARGETS[:3] + TARGETS[4:]))
     case = {"export": export, "doc": di, "fault": fault, "stub": stub, "target": tgt, "name": draw(st.sampled_from(NAMES[export]))}
     if draw(st.integers(0, 9)) < 2:
         case["rewrite"] = draw(st.sampled_from(["rtf", "docx"]))
